@@ -8,6 +8,7 @@ CONSTANTS
   RejectChoices = {TRUE,FALSE}
   MaxPairChoices = {0,1}
   Classes = {"A","N"}
+  PriorChoices = {"none"}
   PlainStrats = {1}
   PairLevelOnly = FALSE
   Variant = "D104"
